@@ -271,6 +271,12 @@ def systematic(seed=0):
     e["SUIT_Envelope_Tagged"]["suit-manifest"]["suit-common"]["suit-components"] = [["M", special]]
     e["SUIT_Envelope_Tagged"]["suit-integrated-payloads"] = {"#" + special: "00"}
     out.append(("special-characters-in-text", e))
+    # integrated PAYLOADS whose bytes merely LOOK like an envelope (they start with the tag 107 head d8 6b but are not one): they are payloads, in every
+    # parse mode - neither listed as dependencies nor expanded as a hierarchy
+    e = envelope(rng, severed=[], n_auth=0, members=[])
+    e["SUIT_Envelope_Tagged"]["suit-integrated-payloads"] = {"#tag-only": "D86B", "#truncated-map": "D86BA2024958", "#tag-then-noise": "D86B" + hexs(rng, 20).upper(),
+                                                              "#plain": "0102"}
+    out.append(("payloads-that-start-like-an-envelope", e))
     # every version comparison name
     e = envelope(rng, severed=[], n_auth=0, members=[])
     e["SUIT_Envelope_Tagged"]["suit-manifest"]["suit-validate"] = [{"suit-directive-override-parameters": {"suit-parameter-version": {R.name_of(c): [1, i]}}} for i, c in enumerate(R.SPACES["version_comparison"])]
